@@ -7,7 +7,11 @@ wt="/tmp/seedrun-$$"
 git -C /repo worktree add -q --detach "$wt" HEAD || exit 2
 trap 'git -C /repo worktree remove --force "$wt" >/dev/null 2>&1; rm -rf "$wt"' EXIT
 if ! git -C "$wt" apply "$patch"; then echo "PATCH-DOES-NOT-APPLY $patch"; exit 2; fi
-make -s -C "$wt/data/lib/pkgcore/ebd" PYTHON=/venv/bin/python PYTHONPATH="$wt/src" >/dev/null 2>&1
+# the generated bash function lists are git-ignored: copy them, rebuild only if the patch touches their inputs
+cp -r /repo/data/lib/pkgcore/ebd/.generated "$wt/data/lib/pkgcore/ebd/.generated"
+if grep -qE '^\+\+\+ b/(data/lib/pkgcore/ebd/|src/pkgcore/ebuild/eapi.py)' "$patch"; then
+  timeout 900 make -s -B -C "$wt/data/lib/pkgcore/ebd" PYTHON=/venv/bin/python PYTHONPATH="$wt/src" >/dev/null 2>&1
+fi
 cd "$(dirname "$0")/.."
 for id in "$@"; do
   out=$(VERIF_REPO="$wt" VERIF_SEED="${SEED:-1}" timeout 1800 ./check "$id" --tier "${TIER:-quick}" --no-evidence 2>&1)
